@@ -143,6 +143,7 @@ Definition denote_env (m : bmode) (st : stmt) : option instr :=
       (* synonyms the SDM lists for one encoding *)
       let op' := if String.eqb op "RETN" then "RET" else if String.eqb op "REPE" || String.eqb op "REPZ" then "REP"
                  else if String.eqb op "REPNZ" then "REPNE" else op in
+      if String.eqb op "INT3" then Some {| i_op := "INT"; i_opsize := 8; i_ops := [OImm 3] |} else
       Some {| i_op := op'; i_opsize := mode_bits m; i_ops := [] |}
   | SMnem op es =>
       match all_some_sop (map (src_operand m) es) with
